@@ -10,8 +10,9 @@ PROP = {
         "announced size whose every byte was written by an accepted frame of this packet, queue idle afterwards "
         "(at most once), stream offset attribution",
         "DefragQueue::init: every per-packet field reset; nothing of the previous packet counts as received",
-        "Fragmenter::send: emits exactly the honest frames (partition of data, equal size >= MIN_PAYLOAD, LAST only "
-        "on the last, <= 256 frames) for all 1<=n<=65535 and all MTUs",
+        "Fragmenter::send [bounded stand-in: packets of <= 4 frames, all MTUs]: emits exactly the honest frames (frame j = "
+        "data[j*ps..min((j+1)*ps, n)], equal size >= MIN_PAYLOAD, LAST only on the last, ceil(n/ps) frames); the 256-frame "
+        "version (complete by operand width) is written but did not finish (tier experimental)",
         "honest completeness step: from any honest partial state an unreceived honest frame is accepted and the "
         "packet is emitted exactly on the last missing frame (any order)",
     ],
